@@ -398,7 +398,7 @@ def judge_history(case: dict, ob: dict) -> list:
     d = M.first_diff(ob["fresh"], ob["image"], regions, masked=mask)
     if d:
         V.append(("C01.history-export", f"{tag};{step};{_rk(d[1])}",
-                  f"after replacing {M.HISTORY_STEPS[step][1]} the export differs from a fresh object's at {d[0]:#x} ({d[1]})"))
+                  f"after {M.HISTORY_STEPS.get(step, (0, 'step-by-step certificate block calls with reads in between'))[1]} the export differs from a fresh object's at {d[0]:#x} ({d[1]})"))
     try:
         M.rom_read(ob, verify=False)
     except Reject as e:
@@ -516,7 +516,7 @@ def lattice_cases(ctx, classes: dict, k: int, reps: int, lengths: list, groups: 
 
             extra = [{n: lat.by_name[n].values[i] for n, i in a.items()}
                      for a in Lattice(lat.dims, M.SMALL_GROUPS).group_products() if len(a) >= 2]
-            for opts in extra + M.flag_product(t):
+            for opts in extra + M.flag_product(t) + M.digest_product(t):
                 if opts not in todo:
                     todo.append(opts)
             for opts in todo:
@@ -527,6 +527,7 @@ def lattice_cases(ctx, classes: dict, k: int, reps: int, lengths: list, groups: 
 
 
 ALIGN_LENGTHS = [0x1F4, 0x1F8, 0x1FC, 0x200]  # every residue mod 16 the 4-byte padding allows
+SHORT_LENGTHS = [0x34, 0x38, 0x3C, 0x40, 0x44]  # around the HMAC offset (classes with the HMAC header); 0x34 is refused
 
 
 def alignment_cases(ctx, classes: dict, protected_only: bool = False) -> list:
@@ -549,7 +550,7 @@ def alignment_cases(ctx, classes: dict, protected_only: bool = False) -> list:
         if len(combos) == 2:
             combos.append({"tz": "custom-bin", "reloc": "2x1,5"})
         for opts in combos:
-            for L in ALIGN_LENGTHS:
+            for L in ALIGN_LENGTHS + (SHORT_LENGTHS if M.has(t, "Hmac", "HmacMandatory") else []):
                 cases.append({"fam": fam, "rev": "latest", "tgt": tgt, "auth": auth, "len": L, "content": "seeded",
                               "opts": opts, "seed": ctx.seed})
     return cases
@@ -587,7 +588,7 @@ def run(ctx) -> None:
                  "representatives; MasterBootImage.parse is run in both modes of its optional dek argument (given / not "
                  "given) for every image that is not encrypted, with the same expectations")
     ctx.rule += ("; alignment family: {custom TrustZone, relocation table, both} x application lengths 0x1F4/0x1F8/0x1FC/0x200 "
-                 "on every class representative; object histories on every class representative: export, export again, "
+                 "(+ 0x34..0x44 around the HMAC offset on the classes with the HMAC header) on every class representative; object histories on every class representative: export, export again, "
                  "replace one member (app, trust_zone, key_store, app_table, hmac_key, cert_block) through its public "
                  "attribute, export - compared byte for byte with a fresh object loaded with the final options")
     ctx.rule += ("; option dimensions include the source of builder-chosen values: counter IV explicit / omitted in the "
